@@ -243,6 +243,14 @@ func AddHandWrittenShapes(r *Rand, w *Workload) {
 		default:
 			t = &TypeSpec{K: "struct", Fields: []FieldSpec{{Name: "bySeverity", T: enumMap(), Required: r.Bool()}, {Name: "plain", T: str()}}}
 		}
+		if r.Chance(1, 3) {
+			// unions of constants written by hand, with and without a default, optional or not
+			t = &TypeSpec{K: "struct", Fields: []FieldSpec{
+				{Name: "mode", T: &TypeSpec{K: "constunion", Values: []string{"auto", "manual"}, Default: "auto"}, Required: r.Bool()},
+				{Name: "plainMode", T: &TypeSpec{K: "constunion", Values: []string{"auto", "manual"}}, Required: r.Bool()},
+				{Name: "nested", T: &TypeSpec{K: "array", Elem: &TypeSpec{K: "constunion", Values: []string{"x", "y"}, Default: "x"}}},
+			}}
+		}
 		specs = append(specs, PassSpec{Kind: "add_object", Obj: fmt.Sprintf("%s.HandWritten%d", pkg, i), Type: t})
 	}
 	path := "cfg/handwritten_passes.yaml"
